@@ -312,7 +312,7 @@ fn project(kind: Kind, r: &[Obs]) -> Vec<Want> {
     w
 }
 
-fn describe(kind: Kind, mask: u32, rounds: &[Vec<usize>], mode: Mode) -> String {
+pub fn describe(kind: Kind, mask: u32, rounds: &[Vec<usize>], mode: Mode) -> String {
     format!(
         "{:?} connected-mask {:#b} rounds [{}]",
         kind,
@@ -803,4 +803,19 @@ pub fn run_time_mode(ctx: &Ctx) -> Vec<Eng> {
     let mut v = state_engines(&quick, true, "c03-device-state-timestamps");
     v.extend(command_engines(&quick, true, "c03-device-command-timestamps"));
     v
+}
+
+impl RoundObs {
+    /// canonical words (f32 as values) for cross-configuration traces
+    pub fn canon_words(&self) -> Vec<(u32, i64, [u32; 3])> {
+        let c = crate::c19::canon;
+        let mut v = Vec::new();
+        for group in [&self.reads_before, &self.own_after, &self.reads_after, &self.ext_reads_after] {
+            for o in group.iter() {
+                v.push((o.tag, if o.tag == 1 { o.time } else { 0 }, [c(o.f(0)), if o.bits[1] <= 3 { o.bits[1] } else { c(o.f(1)) }, c(o.f(2))]));
+            }
+        }
+        v.push((self.upd, 0, [0; 3]));
+        v
+    }
 }
